@@ -148,7 +148,11 @@ where
     encode(Grouping::Capture, None, &mut pattern, tree);
     pattern.push('$');
     Regex::new(&pattern).map_err(|error| match error {
-        RegexError::CompiledTooBig(_) => CompileError {
+        // The encoded syntax is always valid, so a syntax error means that the expression exceeds
+        // a limit of the parser rather than of the compiler: the nesting depth of groups or the
+        // magnitude of a repetition bound. Like an oversized program, this is an error in the glob
+        // expression and not a bug.
+        RegexError::CompiledTooBig(_) | RegexError::Syntax(_) => CompileError {
             kind: CompileErrorKind::OversizedProgram,
         },
         _ => panic!("failed to compile glob"),
